@@ -188,8 +188,34 @@ def judge(ctx, case):
             gen.stride_entries(d, r3)
         ctx.count("class:strided_rowid_arrays")
     cube = catii.ccube(dims, interacting_shape=cshape)
+    cn = int(n + len(dense) + sum(int(c) for c in commons))
+    if cn % 5 == 2:
+        # evaluation knobs set after construction (as research scripts do) must not change what a walk presents
+        cube.parallel = True
+        cube.poolsize = [1, 2, 4][cn % 3]
+        ctx.count("class:parallel_flag_set_before_walking")
     logs = []
-    if case["via"] == "interactions":
+    nested = []
+    if case["via"] == "walk" and cn % 4 == 1 and len(dense) >= 1:
+        # a callback that, part-way through, walks the same cube itself (a custom aggregate fetching the cube's
+        # margins lazily): both the inner and the outer walk must present everything
+        k = case["ncallbacks"]
+        ctx.count("walk:callbacks=%d" % k)
+        ctx.count("walk:re-entered_from_a_callback")
+        logs = [[] for _ in range(k)]
+        state = {"calls": 0}
+
+        def reenter(c, r, L):
+            L.append((c, r))
+            state["calls"] += 1
+            if state["calls"] == 2:
+                nested.append([(cc, rr) for cc, rr in cube.interactions()])
+
+        cbs = [(lambda c, r, L=L: reenter(c, r, L)) if j == 0 else (lambda c, r, L=L: L.append((c, r)))
+               for j, L in enumerate(logs)]
+        cube.walk(cbs[0] if k == 1 and n % 2 == 0 else cbs)
+        logs = logs + nested
+    elif case["via"] == "interactions":
         ctx.count("via:interactions")
         logs.append([(c, r) for c, r in cube.interactions()])
     else:
